@@ -8,15 +8,23 @@
 (*                                ShardCount n, ShardIndex i (src = head,  *)
 (*                                block, both or reopen)                   *)
 (* The trace is accepted iff there is ONE function H of the label set such *)
-(* that every hash event reports H(ls) - whatever the build variant - and  *)
-(* every shard event has i = H(ls) % n.                                    *)
+(* that every hash event reports H(ls) - whatever the build variant or the *)
+(* way the label set was built - and every shard event has i = H(ls) % n.  *)
+(*                                                                         *)
+(* The driver orders the events by label set (hash events first inside a   *)
+(* group), so the state only carries H of the current label set; the       *)
+(* ASSUME below rejects a trace in which a label set has two groups.       *)
 (***************************************************************************)
 EXTENDS Integers, Sequences, FiniteSets, TLC, Json
 
 Trace == ndJsonDeserialize("trace.ndjson")
 
-VARIABLES pos, H, bad
-vars == <<pos, H, bad>>
+VARIABLES pos, cur, bad
+vars == <<pos, cur, bad>>
+
+GroupStart(i) == i = 1 \/ Trace[i].ls # Trace[i - 1].ls
+Starts == {i \in DOMAIN Trace : GroupStart(i)}
+ASSUME Cardinality({Trace[i].ls : i \in Starts}) = Cardinality(Starts)
 
 Pow22 == 4194304
 \* (p2 * 2^44 + p1 * 2^22 + p0) % n with small intermediate values
@@ -24,20 +32,19 @@ Mod(h, n) == LET m22 == Pow22 % n
                  m44 == (m22 * m22) % n
              IN ((h[1] % n) * m44 + (h[2] % n) * m22 + (h[3] % n)) % n
 
-Init == pos = 1 /\ H = <<>> /\ bad = "none"
+Init == pos = 1 /\ cur = <<>> /\ bad = "none"
 
 Ev == Trace[pos]
+Known == IF GroupStart(pos) THEN <<>> ELSE cur       \* H(Ev.ls) as far as the trace has told
 HashEv ==
   LET h == <<Ev.p2, Ev.p1, Ev.p0>> IN
-  IF Ev.ls \in DOMAIN H
-  THEN /\ H' = H
-       /\ bad' = IF H[Ev.ls] = h THEN bad ELSE "hash-differs-between-variants: " \o Ev.ls \o " (" \o Ev.tag \o ")"
-  ELSE /\ H' = [x \in DOMAIN H \cup {Ev.ls} |-> IF x = Ev.ls THEN h ELSE H[x]]
-       /\ bad' = bad
+  /\ cur' = IF Known = <<>> THEN h ELSE Known
+  /\ bad' = IF Known = <<>> \/ Known = h THEN bad
+            ELSE "hash-differs-between-variants: " \o Ev.ls \o " (" \o Ev.tag \o ")"
 ShardEv ==
-  /\ H' = H
-  /\ bad' = IF Ev.ls \notin DOMAIN H THEN "shard-of-unknown-series: " \o Ev.ls
-            ELSE IF Mod(H[Ev.ls], Ev.n) = Ev.i THEN bad
+  /\ cur' = Known
+  /\ bad' = IF Known = <<>> THEN "shard-of-unknown-series: " \o Ev.ls
+            ELSE IF Mod(Known, Ev.n) = Ev.i THEN bad
             ELSE "shard-is-not-hash-mod-n: " \o Ev.ls \o " (" \o Ev.src \o ")"
 
 Next == /\ pos <= Len(Trace)
